@@ -28,6 +28,7 @@ KINDS = {
     "stdgap": (2, ["-m", "mae", "-x", "leadtime"]),      # one lead time in the middle has no valid case (a gap in every line)
     "std1": (2, ["-m", "mae", "-x", "location", "-l", "LOC0"]),        # a single point on the x axis
     "qq": (2, ["-m", "qq"]),
+    "time": (2, ["-m", "mae", "-x", "time"]),            # a date axis: -xticks are given as dates
     "loc": (2, ["-m", "mae", "-x", "location"]),
     "map": (2, ["-m", "mae", "-type", "map"]),
     "pithist": (2, ["-m", "pithist"]),
@@ -118,6 +119,22 @@ def p_xticklabels(fig, kind, info):
     for ax in main_axes(fig, kind):
         if [t.get_text() for t in ax.get_xticklabels()] != ["a", "b", "c"]:
             return "xticklabels %s, expected a,b,c" % [t.get_text() for t in ax.get_xticklabels()]
+
+
+def p_xticks_date(fig, kind, info):
+    want = [t // 86400 for t in info["tick_days"]]
+    for ax in main_axes(fig, kind):
+        if [round(x, 6) for x in ax.get_xticks()] != want:
+            return "xticks %s, expected the date numbers %s of %s" % (list(ax.get_xticks()), want, info["tick_dates"])
+
+
+def p_xticklabels_date(fig, kind, info):
+    msg = p_xticks_date(fig, kind, info)
+    if msg:
+        return msg
+    for ax in main_axes(fig, kind):
+        if [t.get_text() for t in ax.get_xticklabels()] != ["first", "last"]:
+            return "xticklabels %s on the date axis, expected first,last" % [t.get_text() for t in ax.get_xticklabels()]
 
 
 def p_yticks(fig, kind, info):
@@ -528,36 +545,38 @@ def make_af(field):
 
 OPTIONS = {
     # name: (argv, kinds, probe, conflict group, requires)
-    "title": (["-title", "My_title_1"], ["std", "loc", "map", "pithist", "igncontrib", "against"], p_title, None),
-    "xlabel": (["-xlabel", "Xlab"], ["std", "loc", "pithist", "igncontrib", "against"], p_xlabel, None),
-    "ylabel": (["-ylabel", "Ylab"], ["std", "loc", "pithist", "igncontrib", "against"], p_ylabel, None),
+    "title": (["-title", "My_title_1"], ["time", "std", "loc", "map", "pithist", "igncontrib", "against"], p_title, None),
+    "xlabel": (["-xlabel", "Xlab"], ["time", "std", "loc", "pithist", "igncontrib", "against"], p_xlabel, None),
+    "ylabel": (["-ylabel", "Ylab"], ["time", "std", "loc", "pithist", "igncontrib", "against"], p_ylabel, None),
     "clabel": (["-clabel", "Clab"], ["map"], p_clabel, None),
     "xlim": (["-xlim", "1,40"], ["std", "qq", "igncontrib"], p_xlim, "xl"),
-    "ylim": (["-ylim", "0.5,30"], ["std", "qq", "loc", "pithist"], p_ylim, "yl"),
+    "ylim": (["-ylim", "0.5,30"], ["time", "std", "qq", "loc", "pithist"], p_ylim, "yl"),
     "clim": (["-clim", "1,7"], ["map"], p_clim, None),
     "xticks": (["-xticks", "0,12,24"], ["std"], p_xticks, "xt"),
     "xticklabels": (["-xticks", "0,12,24", "-xticklabels", "a,b,c"], ["std"], p_xticklabels, "xt"),
-    "yticks": (["-yticks", "0,5,10"], ["std", "loc"], p_yticks, "yt"),
+    "xticks-date": (["-xticks", "DATES"], ["time"], p_xticks_date, "xt"),
+    "xticklabels-date": (["-xticks", "DATES", "-xticklabels", "first,last"], ["time"], p_xticklabels_date, "xt"),
+    "yticks": (["-yticks", "0,5,10"], ["time", "std", "loc"], p_yticks, "yt"),
     "yticklabels": (["-yticks", "0,5,10", "-yticklabels", "lo,mid,hi"], ["std", "loc"], p_yticklabels, "yt"),
-    "xrot": (["-xrot", "35"], ["std", "loc", "pithist", "igncontrib"], p_xrot, None),
+    "xrot": (["-xrot", "35"], ["time", "std", "loc", "pithist", "igncontrib"], p_xrot, None),
     "yrot": (["-yrot", "25"], ["std", "loc", "pithist", "igncontrib"], p_yrot, None),
     "xlog": (["-xlog"], ["std"], p_xlog, "xlog"),
     "ylog": (["-ylog"], ["std", "loc"], p_ylog, "ylog"),
-    "leg": (["-leg", "LEGNAMES"], ["std", "std5", "loc", "map", "igncontrib"], p_leg, None),
+    "leg": (["-leg", "LEGNAMES"], ["time", "std", "std5", "loc", "map", "igncontrib"], p_leg, None),
     "legfs": (["-legfs", "7"], ["std", "loc", "igncontrib"], p_legfs, "legfs"),
     "legfs0": (["-legfs", "0"], ["std", "loc", "igncontrib"], p_legfs0, "legfs"),
     "legloc": (["-legloc", "lower_left"], ["std", "loc", "igncontrib"], p_legloc, "legfs0x"),
-    "lc": (["-lc", "red,blue"], ["std", "std5", "loc", "tsens", "igncontrib"], p_lc, None),
+    "lc": (["-lc", "red,blue"], ["time", "std", "std5", "loc", "tsens", "igncontrib"], p_lc, None),
     "ls": (["-ls", "--,:,-."], ["std", "std5", "tsens", "igncontrib"], p_ls, None),
     "lw": (["-lw", "3,1"], ["std", "std5", "tsens", "igncontrib"], p_lw, None),
     "ma": (["-ma", "x,s,^"], ["std", "std5", "loc", "igncontrib"], p_ma, None),
     "ms": (["-ms", "4,9,6,5"], ["std", "std5", "loc", "igncontrib"], p_ms, None),
     "ms-map": (["-ms", "4,9,6,5"], ["map"], p_ms_map, None),
-    "labfs": (["-labfs", "11"], ["std", "loc", "pithist", "igncontrib", "against"], p_labfs, None),
-    "tickfs": (["-tickfs", "9"], ["std", "loc", "pithist", "igncontrib", "against"], p_tickfs, None),
+    "labfs": (["-labfs", "11"], ["time", "std", "loc", "pithist", "igncontrib", "against"], p_labfs, None),
+    "tickfs": (["-tickfs", "9"], ["time", "std", "loc", "pithist", "igncontrib", "against"], p_tickfs, None),
     "titlefs": (["-title", "My_title_1", "-titlefs", "23"], ["std", "loc", "pithist"], p_titlefs, "title"),
     "afs": (["-a", "-afs", "5"], ["std", "stdgap", "loc"], p_afs, "a"),
-    "gc": (["-gc", "red"], ["std", "loc", "pithist", "igncontrib", "against"], p_gc, "grid1"),
+    "gc": (["-gc", "red"], ["time", "std", "loc", "pithist", "igncontrib", "against"], p_gc, "grid1"),
     "gs": (["-gs", ":"], ["std", "loc", "pithist", "igncontrib", "against"], p_gs, "grid2"),
     "gw": (["-gw", "3"], ["std", "loc", "pithist", "igncontrib", "against"], p_gw, "grid3"),
     "nogrid": (["-nogrid"], ["std", "loc", "pithist", "igncontrib", "against"], p_nogrid, "nogrid"),
@@ -644,9 +663,14 @@ def run_figure(ctx, kind, names, seed, tag):
     ds, paths, locs = files_for(ctx, seed, F, gap=(kind == "stdgap"), ens=(kind == "tsens"))
     argv = [gen.fnum(locs[0][0]) if a == "LOC0" else a for a in base]
     legnames = ["Name %d" % i for i in range(F)]
+    from vmon import refmodel
+    ctimes = refmodel.common_dims(ds)[0]
+    tick_days = [min(ctimes) // 86400 * 86400, max(ctimes) // 86400 * 86400 + 86400]
+    tick_dates = [refmodel.date_of(t) for t in tick_days]
     for n in names:
         frag = [("Name_%d" % 0 if False else x) for x in OPTIONS[n][0]]
         frag = [",".join(x.replace(" ", "_") for x in legnames) if x == "LEGNAMES" else x for x in frag]
+        frag = [",".join("%d" % x_ for x_ in tick_dates) if x == "DATES" else x for x in frag]
         argv += frag
     out = os.path.join(ctx.workdir, "fig-%s.png" % tag)
     if os.path.exists(out):
@@ -659,7 +683,7 @@ def run_figure(ctx, kind, names, seed, tag):
         o.fig.canvas.draw()
     except Exception as e:
         return None, "drawing failed: %r" % e
-    info = {"F": F, "names": legnames if "leg" in names else [i["name"] for i in ds["inputs"]], "locs": locs,
+    info = {"tick_days": tick_days, "tick_dates": tick_dates, "F": F, "names": legnames if "leg" in names else [i["name"] for i in ds["inputs"]], "locs": locs,
             "png_size": png_size(out) if os.path.exists(out) else None,
             "explicit_margins": any(n in names for n in ("left", "right", "top", "bottom", "left0", "bottom0")),
             "dpi": 50 if "dpi" in names else 100, "argv": argv, "file": out}
@@ -725,7 +749,7 @@ def run_subsets(desc, ctx):
     rng = random.Random("C17-sub-%s-%s" % (desc["seed"], desc["k"]))
     df = default_failures(ctx, desc["seed"])
     for ci in range(desc["n"]):
-        kind = rng.choice(["std", "std", "std5", "stdgap", "qq", "loc", "loc", "map", "pithist", "igncontrib", "against"])
+        kind = rng.choice(["std", "std", "std5", "stdgap", "qq", "loc", "loc", "map", "pithist", "igncontrib", "against", "time"])
         cand = [n for n in OPTIONS if kind in OPTIONS[n][1]]
         for _ in range(30):
             names = rng.sample(cand, min(len(cand), rng.randint(2, 7)))
@@ -740,7 +764,8 @@ def run_subsets(desc, ctx):
 FAMILIES = [["gc", "gs", "gw"], ["left", "right", "top", "bottom", "fs", "dpi"], ["left0", "right", "bottom0", "top", "fs", "dpi"], ["xrot", "yrot", "tickfs"],
             ["title", "xlabel", "ylabel", "labfs"], ["titlefs", "xlabel", "labfs"], ["leg", "legfs", "legloc"],
             ["lc", "ls", "lw", "ma", "ms"], ["xlim", "ylim"], ["xlim", "xticks"], ["ylim", "yticks"], ["xlim", "xticklabels"],
-            ["ylim", "yticklabels"], ["ylim", "sp"], ["xlog", "ylog"], ["xticks", "yticks"], ["a", "tickfs"], ["afs", "labfs"]]
+            ["ylim", "yticklabels"], ["ylim", "sp"], ["xlog", "ylog"], ["xticks", "yticks"], ["a", "tickfs"], ["afs", "labfs"],
+            ["xticks-date", "xrot", "tickfs", "ylim"], ["xticklabels-date", "xrot", "tickfs", "yticks", "title"]]
 
 
 def run_pairs(desc, ctx):
@@ -750,7 +775,7 @@ def run_pairs(desc, ctx):
     i = 0
     for fam in FAMILIES:
         for a, b in itertools.combinations(fam, 2):
-            for kind in ("std", "std1", "std5", "stdgap", "qq", "pithist"):
+            for kind in ("std", "std1", "std5", "stdgap", "qq", "pithist", "time"):
                 if kind not in OPTIONS[a][1] or kind not in OPTIONS[b][1] or not compatible([a, b]):
                     continue
                 i += 1
